@@ -145,6 +145,7 @@ func (e *Environment) SaveGlobals(to io.Writer, maxValueLen int) (int, error) {
 	for e.outer != nil {
 		e = e.outer
 	}
+	to = verifWriter(to)
 	keys := make([]string, 0, len(e.store))
 	for k := range e.store {
 		keys = append(keys, k)
@@ -166,6 +167,7 @@ func (e *Environment) SaveGlobals(to io.Writer, maxValueLen int) (int, error) {
 					return n, err
 				}
 				n++
+				verifCrashPoint("binding")
 				continue
 			}
 			// Anonymous function are like other variables.
@@ -182,6 +184,7 @@ func (e *Environment) SaveGlobals(to io.Writer, maxValueLen int) (int, error) {
 			return n, err
 		}
 		n++
+		verifCrashPoint("binding")
 	}
 	return n, nil
 }
